@@ -39,6 +39,7 @@ const preludeCore = `
 (declare-fun str_of_byte (Int) Str)
 (declare-fun utf8_rune (Str Int) Int)
 (declare-fun utf8_width (Str Int) Int)
+(declare-fun f2i_oor (Real Int) Int)
 (declare-fun tquo (Int Int) Int)
 (declare-fun trem (Int Int) Int)
 (define-fun fdiv ((fdiv!a Int) (fdiv!b Int)) Int (ite (and (< fdiv!a 0) (not (= (trem fdiv!a fdiv!b) 0))) (- (tquo fdiv!a fdiv!b) 1) (tquo fdiv!a fdiv!b)))
